@@ -259,25 +259,15 @@ func ruleLoadRepair(c *Ctx) {
 	}
 	// load errors and repair errors propagate
 	c.need(rule, load, "successful return", func(x ssa.Instruction) bool { r, ok := x.(*ssa.Return); return ok && retIsNilErr(r) },
-		[]Ev{&notFailed{newOkEv(load, "SaveRule", callMatcher(saveRule))}, &notFailed{newOkEv(load, "DeleteRule", callMatcher(delRule))}}, all, "a failed repair write fails the load")
+		[]Ev{newSettledEv(load, "SaveRule", callMatcher(saveRule)), newSettledEv(load, "DeleteRule", callMatcher(delRule))}, all, "a failed repair write fails the load")
 	// savePatch: every write error aborts the commit
 	sp := P.Method(plc, "RuleManager", "savePatch")
 	c.need(rule, sp, "successful return", func(x ssa.Instruction) bool { r, ok := x.(*ssa.Return); return ok && retIsNilErr(r) },
-		[]Ev{&notFailed{newOkEv(sp, "SaveRule", callMatcher(saveRule))}, &notFailed{newOkEv(sp, "DeleteRule", callMatcher(delRule))},
-			&notFailed{newOkEv(sp, "SaveRuleGroup", callMatcher(F(P.Method("server/core", "Storage", "SaveRuleGroup"))))},
-			&notFailed{newOkEv(sp, "DeleteRuleGroup", callMatcher(F(P.Method("server/core", "Storage", "DeleteRuleGroup"))))}}, all,
+		[]Ev{newSettledEv(sp, "SaveRule", callMatcher(saveRule)), newSettledEv(sp, "DeleteRule", callMatcher(delRule)),
+			newSettledEv(sp, "SaveRuleGroup", callMatcher(F(P.Method("server/core", "Storage", "SaveRuleGroup")))),
+			newSettledEv(sp, "DeleteRuleGroup", callMatcher(F(P.Method("server/core", "Storage", "DeleteRuleGroup"))))}, all,
 		"savePatch reports success only if no storage write failed")
 }
-
-// notFailed: holds unless the error edge of a matching call was taken.
-type notFailed struct{ *okEv }
-
-func (n *notFailed) Name() string { return "no failed " + n.okEv.name }
-func (n *notFailed) Edge(st uint8, from *ssa.BasicBlock, succ int) uint8 {
-	f := &failEv{n.okEv}
-	return f.Edge(st, from, succ)
-}
-func (n *notFailed) Holds(st uint8) bool { return st&bEST == 0 }
 
 func init() {
 	register("C13", "Placement rule updates are all-or-nothing and the key-range index is exact", func(c *Ctx) {
